@@ -30,6 +30,11 @@ Init == q = <<>> /\ max = 6 /\ frag = TRUE /\ last = [op |-> "init"] /\ highWate
 Enq(f, how) == /\ q' = EnqNext(q, max, f)
                /\ last' = [op |-> "enq", res |-> EnqOk(q, max, f)]
                /\ UNCHANGED <<max, frag, highWater>>
+\* the same frame arrives as a fragmented message (FIRST then LAST fragment, consecutively) while fragmentation is on:
+\* the re-assembled message enters the queue under exactly the same rule, and the LAST fragment's enqueue() reports it
+EnqFrag(f) == /\ frag /\ q' = EnqNext(q, max, f)
+              /\ last' = [op |-> "enqfrag", res |-> EnqOk(q, max, f)]
+              /\ UNCHANGED <<max, frag, highWater>>
 Deq  == /\ q' = DeqNext(q) /\ last' = [op |-> "deq", res |-> Front(q)] /\ UNCHANGED <<max, frag, highWater>>
 Peek == /\ last' = [op |-> "peek", res |-> Front(q)] /\ UNCHANGED <<q, max, frag, highWater>>
 SetMax(n) == /\ max' = n /\ last' = [op |-> "setmax"] /\ highWater' = IF Len(q) > n THEN Len(q) ELSE n
@@ -37,6 +42,7 @@ SetMax(n) == /\ max' = n /\ last' = [op |-> "setmax"] /\ highWater' = IF Len(q) 
 Toggle == /\ frag' = ~frag /\ last' = [op |-> "toggle"] /\ UNCHANGED <<q, max, highWater>>
 
 Next == \/ \E f \in Frames, how \in {"fresh", "mutate", "reuse"} : Enq(f, how)
+        \/ \E f \in Frames : EnqFrag(f)
         \/ Deq \/ Peek \/ Toggle
         \/ \E n \in MaxSizes : SetMax(n)
 Spec == Init /\ [][Next]_vars
